@@ -163,6 +163,9 @@ func runProp(id, tier string, seed int64, only string, list bool, mutant string)
 		for _, c := range ctxs {
 			for _, o := range c.Obls {
 				fmt.Printf("  %-10s %-9s %s  [%d sites] %s\n", verdict(o), o.Rule, o.Construct, len(o.Sites), o.Why)
+				if os.Getenv("VCHECK_LIST_TEXT") != "" {
+					fmt.Printf("      text: %s\n", o.Desc)
+				}
 				for _, s := range o.Sites {
 					fmt.Printf("        %s\n", s)
 				}
